@@ -107,7 +107,8 @@ Definition getNode (r : erule) (point : Z) : Q :=
 Definition getSupport (r : erule) (point : Z) : Q :=
   match r with
   | Pwc => 1 / zq (int3log3 point)
-  | Localp | Semilocalp => if (point =? 0)%Z then 1 else 1 / zq (int2log2 (point - 1))
+  | Localp => if (point =? 0)%Z then 1 else 1 / zq (int2log2 (point - 1))
+  | Semilocalp => if (point =? 0)%Z then 1 else if (point <=? 2)%Z then 2 else 1 / zq (int2log2 (point - 1))
   | Localp0 => 1 / zq (int2log2 (point + 1))
   | Localpb => if (point <=? 1)%Z then 2 else 1 / zq (int2log2 (point - 1))
   end.
